@@ -1,11 +1,18 @@
 /-
   C08 — TOASTed and compressed values are reassembled to the original bytes; TOAST pointer fields;
-  per-table TOAST statistics.  Property theorems only; helper lemmas are in Proofs/Toast*.lean, Proofs/Pglz.lean,
-  Proofs/Lz4.lean.
+  per-table TOAST statistics.  Property theorems only; helper lemmas are in Proofs/ToastPtr.lean, Proofs/Pglz.lean,
+  Proofs/Lz4.lean, Proofs/ToastRel.lean, Proofs/ToastReasm.lean, Proofs/ToastStats.lean.
+
+  Spec side: Spec/Pglz.lean (token lists, `expand` = what a stream stands for, `renderPglz` = pg_lzcompress.c's byte
+  layout), Spec/Lz4.lean (sequences, `expand`, `render` = LZ4 block format), Spec/Toast.lean (18-byte external pointer,
+  toasted value = original / stored form / chunking / pointer, rows of the TOAST relation, layouts = rows placed on heap
+  pages in any order together with other values' rows and rows whose hint bits say dead / aborted / in progress).
+  Model side: Model/Toast.lean, Model/Pglz.lean, Model/Lz4.lean = pgdump/toast.go with fixes/toast/01..04 applied.
 -/
-import PgVerif.Proofs.ToastPtr
+import PgVerif.Proofs.ToastReasm
+import PgVerif.Proofs.ToastStats
 namespace PgVerif.Props.C08
-open PgVerif PgVerif.Model.Toast PgVerif.Spec.Toast PgVerif.Proofs.Toast
+open PgVerif PgVerif.Model PgVerif.Model.Toast PgVerif.Spec PgVerif.Spec.Toast PgVerif.Proofs.Toast
 
 /-- what the parsed pointer exposes (the fields the property names) -/
 def viewOfPtr (p : Ptr) : PtrView := ⟨p.rawSize, p.extSize, p.valueID, p.toastRelID, p.isCompressed, p.method⟩
@@ -21,5 +28,122 @@ theorem C08_pointer (p : ExtPtr) (h : p.WF) (trailing : Bytes) :
 /-- non-vacuity: a compressed LZ4 pointer with distinctive fields is well-formed and reported compressed -/
 example : (⟨10004, 2500, 1, 0x11223344, 16385⟩ : ExtPtr).WF ∧
     (ptrView ⟨10004, 2500, 1, 0x11223344, 16385⟩).isCompressed = true := by decide
+
+/-- pglz: for EVERY valid token stream — any mix of literals and matches, every tag form (2-byte tags for lengths
+3..17, 3-byte tags for 18..273, offsets 1..4095), overlapping copies (offset < length) included, any number of control
+groups, the last one partial — decompressPGLZ applied to the rendered stream and the exact raw size returns exactly the
+bytes the tokens stand for.  (Streams shorter than 4 bytes are rejected by the Go function; no compressed external
+value has one: `Proofs.Pglz.pglz_stream_ge4`.) -/
+theorem C08_pglz (ts : List Pglz.Tok) (h : Pglz.PglzWF ts) (h4 : 4 ≤ (Pglz.renderPglz ts).length) :
+    Model.Pglz.decompressPGLZ (Pglz.renderPglz ts) (Pglz.expand ts).length = .ok (some (Pglz.expand ts)) :=
+  PgVerif.Proofs.Pglz.decompressPGLZ_render ts h h4
+
+/-- non-vacuity: literals, a short overlapping match, an extended-length match at offset 1, a match reaching back 300 bytes -/
+example : Pglz.PglzWF [.lit 0x61, .lit 0x62, .lit 0x63, .mat 3 30, .mat 1 273, .lit 0x7A, .mat 2 18, .mat 300 17] ∧
+    4 ≤ (Pglz.renderPglz [.lit 0x61, .lit 0x62, .lit 0x63, .mat 3 30, .mat 1 273, .lit 0x7A, .mat 2 18, .mat 300 17]).length := by
+  decide
+
+/-- LZ4: for EVERY valid block — any number of sequences, literal runs and match lengths of any size (with any number of
+0xFF extension bytes), offsets 1..65535 within the output produced so far, overlapping matches included, followed by
+a last literal-only sequence (possibly empty) — decompressLZ4 applied to the rendered block and the exact raw size
+returns exactly the bytes the block stands for. -/
+theorem C08_lz4 (b : Lz4.Block) (h : Lz4.Lz4WF b) :
+    Model.Lz4.decompressLZ4 (Lz4.render b) (Lz4.expand b).length = .ok (some (Lz4.expand b)) :=
+  PgVerif.Proofs.Lz4.decompressLZ4_render b h
+
+/-- non-vacuity: a match overlapping itself, a 300-byte run, a 20-literal sequence, 5 last literals -/
+example : Lz4.Lz4WF ⟨[⟨[0x61, 0x62, 0x63], 3, 30⟩, ⟨[], 1, 300⟩, ⟨List.replicate 20 7, 20, 19⟩], [1, 2, 3, 4, 5]⟩ := by
+  decide
+
+/-- the chunks ReadTOASTTable returns for a layout: one per live row, in physical order, with the row's id,
+sequence number and bytes -/
+theorem C08_chunks (lay : Layout) (h : lay.WF) :
+    readTOASTTable (encToastRel lay) = .ok (lay.liveRows.map toChunk) :=
+  readTOASTTable_layout lay h
+
+/-- Reassembly: for every well-formed layout of a TOAST relation — rows on any number of pages in ANY physical order,
+mixed with other values' rows and with rows whose hint bits say dead, aborted or in progress (whatever their
+contents) — and every value `v` (1 byte .. 1 GiB, stored plain, pglz- or LZ4-compressed, cut into chunks of any
+sizes) whose live rows are in the relation: reading the relation, parsing the 18-byte pointer PostgreSQL left in the
+main tuple, and reassembling returns exactly the original bytes of `v`.  Holds for every behaviour of the zlib fallback
+(it is never reached). -/
+theorem C08_reassemble (zlib : Bytes → Option Bytes) (lay : Layout) (hl : lay.WF) (v : ToastValue) (hv : v.WF)
+    (hs : lay.Stores v) :
+    (do let chunks ← readTOASTTable (encToastRel lay)
+        match ← parseTOASTPointer (encExtPtr (ptrOf v)) with
+        | none => pure none
+        | some p => reassembleTOAST zlib chunks p.valueID (some p)) = .ok (some v.content.original) := by
+  rw [readTOASTTable_layout lay hl, parse_ptrOf v hv]
+  simp only [ok_bind]
+  apply reassemble_value zlib _ v hv
+  rw [List.filter_map]
+  exact hs.map toChunk
+
+/-- The same through TOASTReader.ReadValue with the relation loaded under the pointer's relation id. -/
+theorem C08_readValue (zlib : Bytes → Option Bytes) (readFile : Nat → Option Bytes) (lay : Layout) (hl : lay.WF)
+    (v : ToastValue) (hv : v.WF) (hs : lay.Stores v) (others : List (Nat × List Chunk)) (hasDir : Bool) :
+    (do let chunks ← readTOASTTable (encToastRel lay)
+        let r ← readValue zlib readFile ⟨(v.relid, chunks) :: others, hasDir⟩ (encExtPtr (ptrOf v))
+        pure r.1) = .ok (some v.content.original) := by
+  rw [readTOASTTable_layout lay hl]
+  simp only [ok_bind, readValue, parse_ptrOf v hv]
+  have hlk : List.lookup (mptr v).toastRelID ((v.relid, lay.liveRows.map toChunk) :: others) = some (lay.liveRows.map toChunk) := by
+    simp [mptr, List.lookup]
+  simp only [hlk, Option.isNone_some, Bool.false_and, Bool.false_eq_true, if_false, pure_eq_ok, ok_bind]
+  have := reassemble_value zlib (lay.liveRows.map toChunk) v hv (by rw [List.filter_map]; exact hs.map toChunk)
+  have hid : (mptr v).valueID = v.id := rfl
+  rw [hid, this]
+  rfl
+
+/-- Reassembly from ANY well-formed heap file (the general form of `C08_reassemble`): blocks = formatted pages with
+pointers in any state, tuples anywhere on the page with junk between them, all-zero blocks, a trailing partial block;
+the only assumption is that the data areas of the LIVE tuples are rows of a TOAST relation (dead tuples may hold anything)
+and that the live rows with `chunk_id = v.id` are exactly `v`'s chunks in some order. -/
+theorem C08_reassemble_heap (zlib : Bytes → Option Bytes) (bs : List Block) (tail : Bytes) (hb : ∀ b ∈ bs, b.WF)
+    (ht : tail.length < 8192) (rows : List Row) (hr : ∀ r ∈ rows, r.WF) (hd : liveDatas bs = rows.map rowData)
+    (v : ToastValue) (hv : v.WF) (hs : (rows.filter fun r => r.id == v.id).Perm (chunkRows v)) :
+    (do let chunks ← readTOASTTable (encHeap bs tail)
+        match ← parseTOASTPointer (encExtPtr (ptrOf v)) with
+        | none => pure none
+        | some p => reassembleTOAST zlib chunks p.valueID (some p)) = .ok (some v.content.original) := by
+  rw [readTOASTTable_heap bs tail hb ht, hd, collectM_rows rows hr, parse_ptrOf v hv]
+  simp only [ok_bind]
+  apply reassemble_value zlib _ v hv
+  rw [List.filter_map]
+  exact hs.map toChunk
+
+/-- non-vacuity: a two-chunk plain value and a pglz-compressed value in one relation, stored out of order on two pages
+with a dead version of a chunk in between: the layout is well-formed and stores both values -/
+example :
+    let v1 : ToastValue := { id := 7, relid := 16385, content := .plain [1, 2, 3, 4, 5], cuts := [3, 2] }
+    let ts : List Pglz.Tok := [.lit 0x61, .mat 1 273, .mat 1 20]
+    let v2 : ToastValue := { id := 8, relid := 16385, content := .pglz ts, cuts := [4, 1, 7] }
+    let dead : Entry := { row := { id := 7, seq := 0, data := [9, 9] }, infomask := 0x0502 }
+    let lay : Layout := [[{ row := { id := 7, seq := 1, data := [4, 5] } }, dead, { row := { id := 8, seq := 2, data := (v2.content.stored.drop 5) } }],
+                         [{ row := { id := 8, seq := 0, data := v2.content.stored.take 4 } }, { row := { id := 7, seq := 0, data := [1, 2, 3] } },
+                          { row := { id := 8, seq := 1, data := (v2.content.stored.drop 4).take 1 } }]]
+    v1.WF ∧ v2.WF ∧ lay.WF ∧ lay.Stores v1 ∧ lay.Stores v2 := by
+  decide +kernel
+
+/-- Statistics: for every well-formed layout, GetTOASTVerboseInfo reports nil when the relation has no live chunk, and
+otherwise a report that satisfies `StatsOK` for the LIVE rows (dead / aborted versions are not counted): total chunk count,
+total bytes, the average as the quotient of these two, exactly one entry per distinct chunk id with that value's chunk
+count (non-zero) and byte total, the number of such entries as `unique_values`, their maximum chunk count, and a
+distribution map holding under every occurring chunk count the number of values with that count.  The characterisation
+does not depend on the order of `Values` / of map iteration (C11).  `CompressionStats` is not covered: the Go code never
+fills it (it cannot be derived from the TOAST relation alone).  The harness compares against the sorted rendering
+`Spec.Toast.stats` of the same tallies. -/
+theorem C08_stats (relid : Nat) (lay : Layout) (h : lay.WF) :
+    (lay.liveRows = [] → getTOASTVerboseInfo relid (encToastRel lay) = .ok none) ∧
+    (lay.liveRows ≠ [] → ∃ i, getTOASTVerboseInfo relid (encToastRel lay) = .ok (some i) ∧ StatsOK relid lay.liveRows i) :=
+  verboseInfo_layout relid lay h
+
+/-- non-vacuity: three live rows of two values and a dead one; value 7 has 2 chunks / 5 bytes, value 8 one chunk / 1 byte -/
+example :
+    let lay : Layout := [[{ row := { id := 7, seq := 1, data := [4, 5] } }, { row := { id := 7, seq := 0, data := [9, 9] }, infomask := 0x0502 },
+                          { row := { id := 8, seq := 0, data := [6] } }], [{ row := { id := 7, seq := 0, data := [1, 2, 3] } }]]
+    lay.WF ∧ lay.liveRows.length = 3 ∧
+      (stats lay.liveRows).values = [⟨7, 2, 5⟩, ⟨8, 1, 1⟩] ∧ (stats lay.liveRows).distribution = [(1, 1), (2, 1)] := by
+  decide +kernel
 
 end PgVerif.Props.C08
